@@ -30,7 +30,8 @@ Section Machine.
   | TAnd (a b : term).
 
   (* one record of the call log: argument, raw value, and the box / constraints in force when it was made *)
-  Record call := { c_x : vec; c_y : yval; c_box : option (vec * vec); c_cons : vec -> vec }.
+  Record call := { c_x : vec; c_y : yval; c_e : E; c_box : option (vec * vec); c_cons : vec -> vec }.
+  (* c_e: the objective value (reduced cost + penalty) the solver obtained from this call *)
 
   Record sys := {
     fcalls : Z;                        (* solver._fcalls[0] *)
@@ -53,8 +54,8 @@ Section Machine.
   }.
 
   Definition set_fcalls (s : sys) v := {| fcalls := v; calls := calls s; evalmon := evalmon s; emon_on := emon_on s; stepmon := stepmon s; cblog := cblog s; maxiter := maxiter s; maxfun := maxfun s; exitreq := exitreq s; live := live s; box := box s; u_raw := u_raw s; u_pen := u_pen s; u_cons := u_cons s; u_red := u_red s; u_term := u_term s; has_cb := has_cb s; stuck := stuck s |}.
-  Definition log_call (s : sys) (x : vec) (y : yval) :=
-    {| fcalls := fcalls s + 1; calls := calls s ++ [{| c_x := x; c_y := y; c_box := box s; c_cons := u_cons s |}];
+  Definition log_call (s : sys) (x : vec) (y : yval) (e : E) :=
+    {| fcalls := fcalls s + 1; calls := calls s ++ [{| c_x := x; c_y := y; c_e := e; c_box := box s; c_cons := u_cons s |}];
        evalmon := (if emon_on s then evalmon s ++ [(x, y)] else evalmon s); emon_on := emon_on s; stepmon := stepmon s; cblog := cblog s; maxiter := maxiter s; maxfun := maxfun s; exitreq := exitreq s; live := live s; box := box s; u_raw := u_raw s; u_pen := u_pen s; u_cons := u_cons s; u_red := u_red s; u_term := u_term s; has_cb := has_cb s; stuck := stuck s |}.
   Definition set_stuck (s : sys) := {| fcalls := fcalls s; calls := calls s; evalmon := evalmon s; emon_on := emon_on s; stepmon := stepmon s; cblog := cblog s; maxiter := maxiter s; maxfun := maxfun s; exitreq := exitreq s; live := live s; box := box s; u_raw := u_raw s; u_pen := u_pen s; u_cons := u_cons s; u_red := u_red s; u_term := u_term s; has_cb := has_cb s; stuck := true |}.
   Definition set_stepmon (s : sys) v := {| fcalls := fcalls s; calls := calls s; evalmon := evalmon s; emon_on := emon_on s; stepmon := v; cblog := cblog s; maxiter := maxiter s; maxfun := maxfun s; exitreq := exitreq s; live := live s; box := box s; u_raw := u_raw s; u_pen := u_pen s; u_cons := u_cons s; u_red := u_red s; u_term := u_term s; has_cb := has_cb s; stuck := stuck s |}.
@@ -91,17 +92,21 @@ Section Machine.
     match y with YS e => YS (add N e p) | YV l => YV (map (fun v => add N v p) l) end.
 
   (* objective(x) = reduced( wrap_bounds(wrap_function(raw))(c) + penalty(c) ), c = constraints(x) when nested *)
+  Definition energy_of (s : sys) (yp : yval) : option E :=
+    match yp, u_red s with
+    | YS e, _ => Some e
+    | YV l, Some r => Some (r l)
+    | YV [e], None => Some e
+    | YV _, None => None
+    end.
   Definition objective (nested : bool) (s : sys) (x : vec) : sys * E :=
     let c := if nested then u_cons s x else x in
-    let sy := if outside (box s) c then (s, YS inf)
-              else let y := u_raw s c in (log_call s c y, y) in
-    let yp := yadd (snd sy) (u_pen s c) in
-    match yp, u_red s with
-    | YS e, _ => (fst sy, e)
-    | YV l, Some r => (fst sy, r l)
-    | YV [e], None => (fst sy, e)
-    | YV _, None => (set_stuck (fst sy), inf)
-    end.
+    let out := outside (box s) c in
+    let y := if out then YS inf else u_raw s c in
+    let eo := energy_of s (yadd y (u_pen s c)) in
+    let e := match eo with Some e => e | None => inf end in
+    let s1 := if out then s else log_call s c y e in
+    (match eo with Some _ => s1 | None => set_stuck s1 end, e).
 
   (* ---- algorithms as programs ---- *)
   Inductive prog (R : Type) : Type :=
